@@ -98,6 +98,14 @@ def sign_signable_rules(ctx, rule):
         evs = [ev for ev, _d in flatten_events(p.events)]
         # (stores anywhere on the path, loop bodies included)
         stores = [ev for ev in all_events(p.events) if ev[0] in ("store", "del", "mutcall") and isinstance(ev[2], tuple) and ev[2][0] in ("sub", "attr") and _rooted(ev[2], w.signable)]
+        # removing the signer's own entry first (pop / del under its own key) changes nothing else
+        own_sigs = SubC(w.signable, "signatures")
+        def _own_removal(ev0):
+            if ev0[0] == "mutcall" and ev0[2] == own_sigs and ev0[3] in ("pop",) and ev0[4] and pubhex_of_private(eng.expand(ev0[4][0]), w.priv):
+                return True
+            return ev0[0] == "del" and isinstance(ev0[2], tuple) and ev0[2][0] == "sub" and ev0[2][1] == own_sigs and pubhex_of_private(eng.expand(ev0[2][2]), w.priv)
+
+        stores = [ev0 for ev0 in stores if not _own_removal(ev0)]
         if len(stores) != 1 or stores[0][0] != "store":
             agg["one-store"] = False
             notes["one-store"] = "%d stores/mutations of the envelope on a returning path" % len(stores)
@@ -130,7 +138,20 @@ def sign_signable_rules(ctx, rule):
         ctx.ob(rule, "sign-signable|%s" % k, ssite.loc(), (texts[k][0] if ok2 else texts[k][1] + (": " + notes[k] if k in notes else "")) + " (%d returning paths)" % n_paths, ok2)
     fx = Effects(eng)
     pw = fx.param_writes(w.sm.fi)
-    bad = [x for x in pw if not (x[0] == w.sm.params[0] and len(x[1]) == 2 and x[1][0] == ("sub", C("signatures")) and x[1][1][0] == "sub" and pubhex_of_private(eng.expand(x[1][1][1]), w.priv))]
+    def _own_slot(x):
+        if x[0] != w.sm.params[0] or not x[1] or x[1][0] != ("sub", C("signatures")):
+            return False
+        if len(x[1]) == 2 and x[1][1][0] == "sub" and pubhex_of_private(eng.expand(x[1][1][1]), w.priv):
+            return True
+        # .pop(<own key>, ...) on the signature map
+        if len(x[1]) == 1 and x[2] == ".pop()":
+            for p_ in w.returns:
+                for ev0 in all_events(p_.events):
+                    if ev0[0] == "mutcall" and ev0[1] == x[3] and ev0[4] and pubhex_of_private(eng.expand(ev0[4][0]), w.priv):
+                        return True
+        return False
+
+    bad = [x for x in pw if not _own_slot(x)]
     ctx.ob(rule, "sign-signable|write-set", ssite.loc(), "interprocedural write set of sign_signable %s" % ("is exactly signable['signatures'][<its key>]" if not bad and pw else "contains more than the signer's own entry: " + "; ".join("%s%s" % (x[0], x[1]) for x in bad)[:200]), not bad and bool(pw))
 
 
